@@ -156,6 +156,10 @@ let handle line =
       (match bb_ser_skel (cps cwd) (cps text) with
        | None -> "null"
        | Some l -> "[" ^ String.concat "," (List.map json_str l) ^ "]")
+  | ["SERTEXT"; cwd; text] ->
+      (match bb_ser_text (cps cwd) (cps text) with
+       | None -> "null"
+       | Some t -> json_str t)
   | ["TEXTSKEL"; text] ->
       (match bb_text_skel (cps text) with
        | None -> "null"
